@@ -9,6 +9,7 @@ package doccomposer
 import (
 	"encoding/json"
 	"fmt"
+	"strings"
 
 	jsonpatch "github.com/evanphx/json-patch"
 
@@ -102,6 +103,12 @@ func applyJSON(doc document.Document, entry interface{}) (result document.Docume
 		return nil, err
 	}
 
+	for _, op := range jsonPatches {
+		if err := checkNotIntoOwnDescendant(op); err != nil {
+			return nil, err
+		}
+	}
+
 	docBytes, err := doc.Bytes()
 	if err != nil {
 		return nil, err
@@ -113,6 +120,27 @@ func applyJSON(doc document.Document, entry interface{}) (result document.Docume
 	}
 
 	return document.FromBytes(docBytes)
+}
+
+// checkNotIntoOwnDescendant rejects a copy/move operation whose target lies inside its own source
+// (RFC 6902 forbids this for move). The JSON patch library copies by reference, so such a copy yields a
+// cyclic document and marshalling it overflows the stack - which cannot be recovered from.
+func checkNotIntoOwnDescendant(op map[string]*json.RawMessage) error {
+	var kind, path, from string
+
+	for key, target := range map[string]*string{"op": &kind, "path": &path, "from": &from} {
+		if raw, ok := op[key]; ok && raw != nil {
+			if err := json.Unmarshal(*raw, target); err != nil {
+				return nil //nolint:nilerr // not a string: left to the library, which reports the error
+			}
+		}
+	}
+
+	if (kind == "copy" || kind == "move") && strings.HasPrefix(path, from+"/") {
+		return fmt.Errorf("apply JSON patch: cannot %s '%s' into its own descendant '%s'", kind, from, path)
+	}
+
+	return nil
 }
 
 func applyRecover(replaceDoc interface{}) (document.Document, error) {
